@@ -72,6 +72,16 @@ def initSet (l : List Key) : List Key := sortKeys (dedupKeys l)
 def generateSubsetKeys (raw : List (List Key)) : List (List Key) :=
   raw.foldl (fun acc ks => let s := initSet ks; if acc.contains s then acc else acc ++ [s]) []
 
+/-! ### match criteria: `router.NewMetadataMatchCriteriaImpl` -/
+
+def insertKV (kv : KV) : Path → Path
+  | [] => [kv]
+  | x :: r => if kv.1 ≤ x.1 then kv :: x :: r else x :: insertKV kv r
+
+/-- `NewMetadataMatchCriteriaImpl(m)`: the pairs of the map `m` (given in Go's arbitrary iteration order, keys unique)
+sorted by key (`sort.Sort` over distinct keys: any correct sort gives this list) -/
+def mkCriteria (kvs : Path) : Path := kvs.foldr insertKV []
+
 /-! ### the trie -/
 
 inductive Trie where
